@@ -185,7 +185,7 @@ func fmtReads(rs []read) string {
 
 func main() {
 	run := report.New("C14", "exploration")
-	run.Rule("scenarios (real time, small durations): S1 identity (two issuers, equal subject+serial; certificates with keyIdentifier / issuer+serial / long / no authorityKeyIdentifier), S2 default lifetime with read periods above and below the lifetime and a good->revoked flip, S3 nextUpdate past / near (requested lifespan read from the cache table), S4 zero duration => hits == calls, S5 failed queries (down, garbage, unauthenticated) are not cached, S6 two checker instances with different durations, S7 seeded provision/cleanup life cycles of 1 h-cache instances, after every step a fresh zero-duration instance must contact the responder for every certificate cached so far; oracle one-sided: a verdict served without a responder hit at an age above lifetime+margin, or for another issuer's certificate, is a violation; non-trivial = the scenario observed at least one read served from cache (or, for S4/S5, responder hits on every call); distinct = scenario instance")
+	run.Rule("scenarios (real time, small durations): S1 identity (two issuers, equal subject+serial; certificates with keyIdentifier / issuer+serial / long / no authorityKeyIdentifier), S2 default lifetime with read periods above and below the lifetime and a good->revoked flip, S2d an expired entry with the responder unavailable under aia_strict is not served, S3 nextUpdate past / near (requested lifespan read from the cache table), S4 zero duration => hits == calls, S5 failed queries (down, garbage, unauthenticated) are not cached, S6 two checker instances with different durations, S7 seeded provision/cleanup life cycles of 1 h-cache instances, after every step a fresh zero-duration instance must contact the responder for every certificate cached so far; oracle one-sided: a verdict served without a responder hit at an age above lifetime+margin, or for another issuer's certificate, is a violation; non-trivial = the scenario observed at least one read served from cache (or, for S4/S5, responder hits on every call); distinct = scenario instance")
 	run.Assume("all stamps from one monotonic clock in the harness process; a lateness probe voids a scenario when 5 ms timers fire more than margin/4 late", "margin = max(1 s, 3 x lifetime)")
 	scratch, _ := report.Scratch("C14")
 	sut.QuietStderr(filepath.Join(scratch, "stderr.log"))
@@ -415,6 +415,44 @@ func main() {
 			run.NonTrivial("S1c " + name)
 		}
 	})
+	// S2d: the lifetime is over and the responder is unreachable: the old verdict is not an answer any more
+	for _, mode := range []string{"down", "garbage"} {
+		mode := mode
+		goRun(func() {
+			life := time.Second
+			chk := newChecker(true, life)
+			serial := pki.NextSerial()
+			chain := w.Leaf(serial, nil, []string{w.OCSP.URL("/a")})
+			e.set("/a", serial, world.OCSPStatus{Status: ocsp.Good}, "")
+			t0 := time.Now()
+			_, err0 := chk.IsRevoked(chain[0], [][]*x509.Certificate{chain})
+			h0 := e.hits("/a", serial)
+			// a read late inside the lifetime (the cache table counts its own, sliding, lifespan from here,
+			// so the entry is still in the table when its lifetime is over)
+			time.Sleep(time.Until(t0.Add(life * 8 / 10)))
+			_, _ = chk.IsRevoked(chain[0], [][]*x509.Certificate{chain})
+			readAt := time.Since(t0)
+			hRead := e.hits("/a", serial)
+			e.set("/a", serial, world.OCSPStatus{Status: ocsp.Revoked}, mode)
+			time.Sleep(time.Until(t0.Add(life + life*4/10)))
+			askedAt := time.Since(t0)
+			st, err := chk.IsRevoked(chain[0], [][]*x509.Certificate{chain})
+			run.Eval(1)
+			if err0 != nil {
+				run.Inconclusive("S2d: first query failed: " + err0.Error())
+				return
+			}
+			if readAt > life*95/100 || hRead != h0 || askedAt > life*17/10 {
+				run.Inconclusive(fmt.Sprintf("S2d: timing off (read at %v, asked at %v, responder hits %d -> %d)", readAt, askedAt, h0, hRead))
+				return
+			}
+			if err == nil {
+				run.Violation("lifetime.S2d-expired-entry-served-when-responder-"+mode, fmt.Sprintf("lifetime %v was over for %v, the responder is unavailable (%s), aia_strict: the call answered revoked=%v without error from the expired entry", life, askedAt-life, mode, st != nil && st.Revoked), nil)
+				return
+			}
+			run.NonTrivial("S2d expired entry, responder " + mode)
+		})
+	}
 	// S4: zero duration, no nextUpdate => every call contacts the responder
 	goRun(func() {
 		chk := newChecker(true, 0)
